@@ -273,6 +273,120 @@ def _rand_c(rr, m, n):
     return rr.randn(m, n) + 1j * rr.randn(m, n)
 
 
+GMD_FAMILIES = {2: ("generic", "all_equal"), 3: ("generic", "all_equal", "top_equal", "bottom_equal", "middle_is_mean")}
+
+
+def _gmd_inputs(c, p, family):
+    """singular values s0 >= ... >= s_{p-1} > 0; the families partition this domain (generic = strictly decreasing and, for p = 3,
+    the middle value different from the geometric mean), so that each degenerate branch of gmd is reached with inputs that make
+    the degeneracy a polynomial fact"""
+    S = np.empty(p, dtype=object)
+    if family == "generic":
+        for i in range(p):
+            S[i] = c.var("s%d" % i, "real")
+        for i in range(p - 1):
+            c.assume(S[i] > S[i + 1])
+        c.assume(S[p - 1] > 0)
+        if p == 3:
+            c.assume(S[1] * S[1] != S[0] * S[2])
+    elif family == "all_equal":
+        s = c.var("s", "real")
+        c.assume(s > 0)
+        for i in range(p):
+            S[i] = s
+    elif family in ("top_equal", "bottom_equal"):
+        a, b = c.var("a", "real"), c.var("b", "real")
+        c.assume((a > b) & (b > 0))
+        S[0], S[1], S[2] = (a, a, b) if family == "top_equal" else (a, b, b)
+    elif family == "middle_is_mean":
+        t, r = c.var("t", "real"), c.var("r", "real")
+        c.assume((t > 0) & (r > 1))
+        S[0], S[1], S[2] = t * r, t, t / r
+    c.inputs.update(S=list(S))
+    return S
+
+
+def _gmd_replay(p):
+    def rp(mv):
+        import pyphysim.util.misc as misc
+        try:
+            S = np.array([float(x) for x in mv["S"]])
+            if not (np.all(np.diff(S) <= 0) and S[-1] > 0):
+                return {"confirmed": False, "note": "model outside the domain in binary64", "S": S.tolist()}
+            r = stable_rng("C20gmd")
+            A = r.standard_normal((p, p))
+            U, _, Vh = np.linalg.svd(A)
+            out = {"S": S.tolist()}
+            import warnings
+            with warnings.catch_warnings():
+                warnings.simplefilter("ignore")
+                try:
+                    Q, R, P = misc.gmd(U, S, Vh)
+                except Exception as e:
+                    out.update(confirmed=True, observed="raised %r" % e)
+                    return out
+            A0 = U @ np.diag(S) @ Vh
+            gm = float(np.prod(S) ** (1.0 / p))
+            bad = (not np.all(np.isfinite(Q)) or not np.all(np.isfinite(R)) or not np.all(np.isfinite(P))
+                   or np.abs(Q @ R @ P.conj().T - A0).max() > 1e-9 * S[0] or np.abs(Q.conj().T @ Q - np.eye(p)).max() > 1e-9
+                   or np.abs(P.conj().T @ P - np.eye(p)).max() > 1e-9 or np.abs(np.tril(R, -1)).max() > 1e-9 * S[0]
+                   or np.abs(np.diag(R) - gm).max() > 1e-9 * gm)
+            out.update(confirmed=bool(bad), diag_R=np.diag(R).tolist(), geometric_mean=gm,
+                       reconstruction_error=float(np.nan_to_num(np.abs(Q @ R @ P.conj().T - A0).max(), nan=1e300)))
+            return out
+        except Exception as e:
+            return {"confirmed": False, "error": repr(e)}
+    return rp
+
+
+@obligation("gmd/geometric_mean_decomposition", params=[{"p": p, "family": f} for p in (2, 3) for f in GMD_FAMILIES[p]], timeout=300,
+            desc="gmd(U, S, V^H) symbolically executed for p = 2, 3 singular values (ALL s0 >= .. >= s_{p-1} > 0, by the case analysis of "
+                 "GMD_FAMILIES; geometric mean through the n-th-root contract root(x)^p == x): with U = V = I the result satisfies "
+                 "Q R P^T == diag(S), Q^T Q == I, P^T P == I, R upper triangular with every diagonal entry the positive p-th root of "
+                 "prod(S); no division by zero / sqrt of a negative on any path (repeated singular values included); and for GENERIC "
+                 "symbolic U, V the routine only recombines columns: Q == U X, P == V Y, R unchanged (so A == Q R P^H for every A = U S V^H)")
+def ob_gmd(p, family):
+    def body(c, it):
+        import pyphysim.util.misc as misc
+        S = _gmd_inputs(c, p, family)
+        I = np.eye(p)
+        X, R, Y = it.call(misc.gmd, [I, S, I])
+        goals = [Goal("shapes", np.shape(X) == (p, p) and np.shape(R) == (p, p) and np.shape(Y) == (p, p))]
+        if not goals[0].cond:
+            return goals
+        X, R, Y = (np.asarray(x, dtype=object) for x in (X, R, Y))
+        if family != "generic":
+            sig = lift(R[p - 1, p - 1])
+            for i in range(p):
+                if c.add_ring_equality(sig, S[i], 3000):
+                    break
+        D = np.zeros((p, p), dtype=object)
+        for i in range(p):
+            D[i, i] = S[i]
+        goals.append(Goal("Q R P^T == diag(S)", _meq(X.dot(R).dot(Y.T), D)))
+        goals.append(Goal("Q^T Q == I", _meq(X.T.dot(X), np.eye(p, dtype=object))))
+        goals.append(Goal("P^T P == I", _meq(Y.T.dot(Y), np.eye(p, dtype=object))))
+        low = [R[i, j] for i in range(p) for j in range(i)]
+        goals.append(Goal("R upper triangular", all((not sym.is_sym(x) and x == 0) or bool(z3.is_true(z3.simplify((lift(x) == 0).t))) for x in low)))
+        prod = S[0]
+        for i in range(1, p):
+            prod = prod * S[i]
+        for i in range(p):
+            pw = lift(R[i, i])
+            for _ in range(p - 1):
+                pw = pw * R[i, i]
+            goals.append(Goal("R[%d,%d]^p == prod(S) and R[%d,%d] > 0" % (i, i, i, i), frac_eq(pw, prod) & (lift(R[i, i]) > 0)))
+        # frame: only column operations on U and V^H^H
+        U, V = _rmat(c, "U", p, p), _rmat(c, "V", p, p)
+        Q, R2, P = it.call(misc.gmd, [U, S, V.T])
+        Q, R2, P = (np.asarray(x, dtype=object) for x in (Q, R2, P))
+        goals.append(Goal("generic U: Q == U X", _meq(Q, U.dot(X))))
+        goals.append(Goal("generic V: P == V Y", _meq(P, V.dot(Y))))
+        goals.append(Goal("R does not depend on U, V", _meq(R2, R)))
+        return goals
+    return verify(body, check_side=True, timeout_ms=20000, max_paths=50, replay=_gmd_replay(p))
+
+
 @obligation("native/kernels", kind="bounded", timeout=900,
             desc="complex/real matrices of sizes 1..8 (condition number <= 1e4): projection identities, the three chordal-distance routines "
                  "agree (1e-9), symmetric, zero for equal subspaces, invariant to basis change and to a common unitary rotation; gmd "
@@ -294,50 +408,58 @@ def ob_native():
         k = int(rr.randint(1, n + 1))
         mk = (lambda a, b: rr.randn(a, b)) if case["real"] else (lambda a, b: _rand_c(rr, a, b))
         A = mk(n, k)
-        if np.linalg.cond(A) > 1e4:
+        if (not (np.linalg.cond(A) <= 1e4)):
             return None
         P = pr.Projection(A)
         M = mk(n, 2)
         tol = 1e-9
-        if np.abs(P.Q - P.Q.conj().T).max() > tol or np.abs(P.Q @ P.Q - P.Q).max() > tol or np.abs(P.Q @ A - A).max() > tol * max(1, np.abs(A).max()):
+        if (not (np.abs(P.Q - P.Q.conj().T).max() <= tol)) or (not (np.abs(P.Q @ P.Q - P.Q).max() <= tol)) or (not (np.abs(P.Q @ A - A).max() <= tol * max(1, np.abs(A).max()))):
             return {"projection identities": n}
         r1 = P.reflect(M)
         r2 = P.reflect(r1)
-        if np.abs(r2 - M).max() > 1e-8 * max(1, np.abs(M).max()):
+        if (not (np.abs(r2 - M).max() <= 1e-8 * max(1, np.abs(M).max()))):
             return {"reflect twice != identity": float(np.abs(r2 - M).max())}
-        if np.abs(P.project(M) + P.oProject(M) - M).max() > tol * max(1, np.abs(M).max()) or np.abs(P.oProject(A)).max() > 1e-8 * max(1, np.abs(A).max()):
+        if (not (np.abs(P.project(M) + P.oProject(M) - M).max() <= tol * max(1, np.abs(M).max()))) or (not (np.abs(P.oProject(A)).max() <= 1e-8 * max(1, np.abs(A).max()))):
             return {"project + oProject != M (after reflect)": True}
-        if np.abs(P.oQ - (np.eye(n) - P.Q)).max() > tol:
+        if (not (np.abs(P.oQ - (np.eye(n) - P.Q)).max() <= tol)):
             return {"oQ != I - Q after use": True}
         B = mk(n, k)
-        if np.linalg.cond(B) < 1e4:
+        if (not (np.linalg.cond(B) >= 1e4)):
             d1, d2 = mt.calc_chordal_distance(A, B), mt.calc_chordal_distance_2(A, B)
             d3 = mt.calc_chordal_distance_from_principal_angles(mt.calc_principal_angles(A, B))
-            if max(abs(d1 - d2), abs(d1 - d3)) > 1e-7:
+            if (not (max(abs(d1 - d2), abs(d1 - d3)) <= 1e-7)):
                 return {"chordal distance routines disagree": [d1, d2, d3]}
-            if abs(mt.calc_chordal_distance(B, A) - d1) > 1e-9 or mt.calc_chordal_distance(A, A) > 1e-7:
+            if (not (abs(mt.calc_chordal_distance(B, A) - d1) <= 1e-9)) or (not (mt.calc_chordal_distance(A, A) <= 1e-7)):
                 return {"chordal symmetry / zero": True}
             T = mk(k, k)
-            if np.linalg.cond(T) < 1e3:
-                if abs(mt.calc_chordal_distance(A @ T, B) - d1) > 1e-7 or abs(mt.calc_chordal_distance_2(A @ T, B) - d2) > 1e-7:
+            if (not (np.linalg.cond(T) >= 1e3)):
+                if (not (abs(mt.calc_chordal_distance(A @ T, B) - d1) <= 1e-7)) or (not (abs(mt.calc_chordal_distance_2(A @ T, B) - d2) <= 1e-7)):
                     return {"basis change": True}
             Uq = np.linalg.qr(mk(n, n))[0]
-            if abs(mt.calc_chordal_distance(Uq @ A, Uq @ B) - d1) > 1e-7:
+            if (not (abs(mt.calc_chordal_distance(Uq @ A, Uq @ B) - d1) <= 1e-7)):
                 return {"unitary rotation": True}
-        # gmd
+        # gmd (incl. exactly repeated singular values: scaled identities, permutations, diag(4,2,2,1)-like)
         H = mk(n, n)
         if case["seed"] % 3 == 0:
             sv = 2.0 ** np.arange(n, 0, -1)
             H = np.linalg.qr(mk(n, n))[0] @ np.diag(sv) @ np.linalg.qr(mk(n, n))[0]
-        if np.linalg.cond(H) < 1e4:
-            U, S, Vh = np.linalg.svd(H)
-            Q, R, Pm = misc.gmd(U, S, Vh)
-            if np.abs(Q @ R @ Pm.conj().T - H).max() > 1e-8 * max(1, np.abs(H).max()):
-                return {"gmd reconstruction": float(np.abs(Q @ R @ Pm.conj().T - H).max()), "n": n}
-            if np.abs(Q.conj().T @ Q - np.eye(n)).max() > 1e-8 or np.abs(Pm.conj().T @ Pm - np.eye(n)).max() > 1e-8:
-                return {"gmd factors not orthonormal": n}
-            if np.abs(np.tril(R, -1)).max() > 1e-9 or np.abs(np.diag(R) - np.prod(S) ** (1.0 / n)).max() > 1e-8 * max(1, S.max()):
-                return {"gmd R not upper triangular with constant diagonal": n}
+        special = [H]
+        if case["seed"] % 3 == 1:
+            special = [3.0 * np.eye(n), np.eye(n)[rr.permutation(n)], 1j * np.eye(n),
+                       np.diag(([4.0, 2.0, 2.0, 1.0, 1.0, 0.5, 0.5, 0.25])[:n])]
+        for H in special:
+            if (not (np.linalg.cond(H) >= 1e4)):
+                U, S, Vh = np.linalg.svd(H)
+                with np.errstate(all="ignore"):
+                    Q, R, Pm = misc.gmd(U, S, Vh)
+                if not (np.all(np.isfinite(Q)) and np.all(np.isfinite(R)) and np.all(np.isfinite(Pm))):
+                    return {"gmd returned non-finite factors": n, "singular values": S.tolist()}
+                if not (not (np.abs(Q @ R @ Pm.conj().T - H).max() > 1e-8 * max(1, np.abs(H).max()))):
+                    return {"gmd reconstruction": float(np.abs(Q @ R @ Pm.conj().T - H).max()), "n": n}
+                if not ((not (np.abs(Q.conj().T @ Q - np.eye(n)).max() > 1e-8)) and (not (np.abs(Pm.conj().T @ Pm - np.eye(n)).max() > 1e-8))):
+                    return {"gmd factors not orthonormal": n}
+                if not ((not (np.abs(np.tril(R, -1)).max() > 1e-9)) and (not (np.abs(np.diag(R) - np.prod(S) ** (1.0 / n)).max() > 1e-8 * max(1, S.max())))):
+                    return {"gmd R not upper triangular with constant diagonal": n}
         # selectors on Hermitian matrices with distinct eigenvalues
         Hm = mk(n, n)
         Hm = Hm @ Hm.conj().T + np.diag(np.arange(n))
@@ -346,21 +468,21 @@ def ob_native():
             V, D = fn(Hm, kk)
             w = np.sort(np.linalg.eigvalsh(Hm))
             want = w[::-1][:kk] if largest else w[:kk]
-            if np.abs(np.sort(D.real) - np.sort(want)).max() > 1e-7 * max(1, np.abs(w).max()) or np.abs(Hm @ V - V * D).max() > 1e-6 * max(1, np.abs(w).max()):
+            if (not (np.abs(np.sort(D.real) - np.sort(want)).max() <= 1e-7 * max(1, np.abs(w).max()))) or (not (np.abs(Hm @ V - V * D).max() <= 1e-6 * max(1, np.abs(w).max()))):
                 return {fn.__name__: "not the requested eigenpairs"}
         if n >= 2:
             W = mk(n, n)
             nn = int(rr.randint(1, n))
             V0, V1, S1 = misc.least_right_singular_vectors(W, nn)
             s = np.linalg.svd(W, compute_uv=False)
-            if V0.shape != (n, nn) or np.abs(np.sort(np.linalg.norm(W @ V0, axis=0)) - np.sort(s[-nn:])).max() > 1e-8 * max(1, s.max()):
+            if V0.shape != (n, nn) or (not (np.abs(np.sort(np.linalg.norm(W @ V0, axis=0)) - np.sort(s[-nn:])).max() <= 1e-8 * max(1, s.max()))):
                 return {"least_right_singular_vectors": "V0 not the least singular directions"}
-            if np.abs(np.sort(S1) - np.sort(s[:n - nn])).max() > 1e-9 * max(1, s.max()):
+            if (not (np.abs(np.sort(S1) - np.sort(s[:n - nn])).max() <= 1e-9 * max(1, s.max()))):
                 return {"least_right_singular_vectors": "S1"}
         Am = mk(n, n) + n * np.eye(n)
         dd = rr.rand(n) + 0.1
         out = misc.update_inv_sum_diag(np.linalg.inv(Am), dd)
-        if np.abs(out @ (Am + np.diag(dd)) - np.eye(n)).max() > 1e-7:
+        if (not (np.abs(out @ (Am + np.diag(dd)) - np.eye(n)).max() <= 1e-7)):
             return {"update_inv_sum_diag": float(np.abs(out @ (Am + np.diag(dd)) - np.eye(n)).max())}
         return None
     return bounded(gen(), check)
@@ -383,7 +505,7 @@ def ob_whiten_ok():
         R = X @ X.conj().T / (n + 3) + 0.05 * np.eye(n)
         W = misc.calc_whitening_matrix(R)
         e = np.abs(W.conj().T @ R @ W - np.eye(n)).max()
-        return {"|W^H R W - I|": float(e), "n": n} if e > 1e-8 else None
+        return {"|W^H R W - I|": float(e), "n": n} if (not (e <= 1e-8)) else None
     return bounded(gen(), check)
 
 
@@ -397,7 +519,7 @@ def ob_whiten_repeated():
         R = h @ h.conj().T + 0.5 * np.eye(3)
         W = misc.calc_whitening_matrix(R)
         e = np.abs(W.conj().T @ R @ W - np.eye(3)).max()
-        return {"|W^H R W - I|": float(e)} if e > 1e-8 else None
+        return {"|W^H R W - I|": float(e)} if (not (e <= 1e-8)) else None
     return bounded([{"R": "hh^H + 0.5 I"}], check)
 
 
@@ -425,16 +547,16 @@ def ob_conv_float():
     def check(case):
         x = np.linspace(-150, 150, 601)
         y = 10 ** np.linspace(-15, 15, 601)
-        if np.abs(cv.linear2dB(cv.dB2Linear(x)) - x).max() > 1e-10 or np.abs(cv.dB2Linear(cv.linear2dB(y)) / y - 1).max() > 1e-12:
+        if (not (np.abs(cv.linear2dB(cv.dB2Linear(x)) - x).max() <= 1e-10)) or (not (np.abs(cv.dB2Linear(cv.linear2dB(y)) / y - 1).max() <= 1e-12)):
             return {"dB": True}
-        if np.abs(cv.linear2dBm(cv.dBm2Linear(x)) - x).max() > 1e-10 or np.abs(cv.dBm2Linear(cv.linear2dBm(y)) / y - 1).max() > 1e-12:
+        if (not (np.abs(cv.linear2dBm(cv.dBm2Linear(x)) - x).max() <= 1e-10)) or (not (np.abs(cv.dBm2Linear(cv.linear2dBm(y)) / y - 1).max() <= 1e-12)):
             return {"dBm": True}
-        if abs(cv.dBm2Linear(60) - 1000.0) > 1e-9 or abs(cv.linear2dBm(1000) - 60) > 1e-12:
+        if (not (abs(cv.dBm2Linear(60) - 1000.0) <= 1e-9)) or (not (abs(cv.linear2dBm(1000) - 60) <= 1e-12)):
             return {"dBm anchor": True}
         for k in (1, 2, 4, 6, 10):
-            if np.abs(cv.EbN0_dB_to_SNR_dB(cv.SNR_dB_to_EbN0_dB(x, k), k) - x).max() > 1e-10:
+            if (not (np.abs(cv.EbN0_dB_to_SNR_dB(cv.SNR_dB_to_EbN0_dB(x, k), k) - x).max() <= 1e-10)):
                 return {"EbN0": k}
-        if abs(cv.dB2Linear(30.0) - 1000) > 1e-9 or abs(float(cv.linear2dB(1000)) - 30) > 1e-12:
+        if (not (abs(cv.dB2Linear(30.0) - 1000) <= 1e-9)) or (not (abs(float(cv.linear2dB(1000)) - 30) <= 1e-12)):
             return {"dB anchor": True}
         return None
     return bounded([{}], check)
